@@ -1708,7 +1708,13 @@ impl Labeller {
             Some((1, ph, plen, _t, sup, reuse)) => {
                 let sum = self.id_of(ph);
                 let plen = if reuse.is_some() { 0 } else { plen };
-                format!("rec {seq} {} ins {sum} {plen} {}", recb.len(), sup.map(|x| x.to_string()).unwrap_or_else(|| "-".into()))
+                let (need, parent) = match memvid_core::memvid::mutation::verif_wal_entry_chunks(&recb[48..]) {
+                    Some((n, p, _)) => (n, p),
+                    None => (0, None),
+                };
+                format!("rec {seq} {} ins {sum} {plen} {} {need} {}", recb.len(),
+                    sup.map(|x| x.to_string()).unwrap_or_else(|| "-".into()),
+                    parent.map(|x| x.to_string()).unwrap_or_else(|| "-".into()))
             }
             Some((2, _, _, t, _, _)) => format!("rec {seq} {} tomb {}", recb.len(), t.unwrap_or(u64::MAX)),
             _ => format!("rec {seq} {} lex", recb.len()),
@@ -1723,7 +1729,9 @@ impl Labeller {
             Ok(toc) => {
                 let frames: Vec<String> = toc.frames.iter().map(|f| {
                     let st = match f.status { FrameStatus::Active => 0, FrameStatus::Superseded => 1, FrameStatus::Deleted => 2 };
-                    format!("{}:{}:{}:{}", f.payload_offset, f.payload_length, self.id_of(f.checksum), st)
+                    format!("{}:{}:{}:{}:{}:{}", f.payload_offset, f.payload_length, self.id_of(f.checksum), st,
+                        f.chunk_manifest.as_ref().map(|m| m.chunks.len()).unwrap_or(0),
+                        f.parent_id.map(|p| p + 1).unwrap_or(0))
                 }).collect();
                 let mut segs = vec![];
                 if let Some(sk) = &toc.sketch_track {
@@ -1840,7 +1848,7 @@ pub fn stage_of_error(e: &str) -> &'static str {
     else if l.contains("table of contents") || l.contains("toc") { "toc" }
     else if l.contains("sketch") || l.contains("memories") || l.contains("logic mesh") || l.contains("segment") { "segment" }
     else if l.contains("overlap") || l.contains("payload extends") { "overlap" }
-    else if l.contains("header") || l.contains("magic") || l.contains("version") { "header" }
+    else if l.contains("header") || l.contains("magic") || l.contains("version") || l.contains("failed to fill whole buffer") { "header" }
     else { "other" }
 }
 
